@@ -134,6 +134,7 @@ POOL = [
     "t(X) :- (a(X) -> b(X) ; c(X)), !, d([X|T], T).\n",
     "z.\nz :- fail.\n",
     "q('line1\r\nline2', \"\").\n".replace('"', "'"),
+    "c1(X) :- (a(X) -> b(X) ; c(X)).\nc2(X) :- \\+ a(X), (b(X) -> true ; c(X)), (c(X) -> d ; e).\n",
 ]
 
 
@@ -190,7 +191,7 @@ class CliMatrix(ch.DirectUnit):
         self.info = {}
 
     def cases(self):
-        good = ["foo(a).\nbar(X) :- foo(X).\n", "nm('héllo 五').\n"]
+        good = ["foo(a).\nbar(X) :- foo(X).\n", "nm('héllo 五', 'two\r\nlines', 'cr\ronly').\r\nx.\n"]
         bad = "cat(tom) :- 1.\n"
         broken = "foo(a) :- .\n"
         out = []
